@@ -84,6 +84,9 @@ def execute(scn, case, sched_seed, trace=None):
 def worker(prop, tier, base_seed, wid, nworkers, budget_s, max_runs, out_path):
     faulthandler.enable()
     faulthandler.dump_traceback_later(budget_s + 60, exit=True)
+    import logging
+
+    logging.disable(logging.CRITICAL)  # the library's own logger.error/debug output is not part of the verdict
     scn = load_scenario(prop)
     t0 = time.time()
     agg = {
